@@ -7,8 +7,9 @@ GEN = ['Kernels']
 TRUSTED = ['polynomial identities proved over Z hold in every commutative ring (the translated kernel weights are polynomials)',
            'numpy reshape/swapaxes/einsum index semantics in multidim.py (checked by the oracle against explicit einsum formulas)',
            'numba compilation of the kernels (the Python source is what is translated/modelled)']
-ASSUMPTIONS = ['2-D lottery: weight-level identities are proved for the translated corners; the sum-level scatter/gather theorem is proved for the 1-D row only',
-               'DiscreteChoice / LogitChoice transitions and non-negativity under weights in [0,1]: oracle only']
+ASSUMPTIONS = ['sum-level theorems: any scatter/gather lottery (adjointness, mass, non-negativity), the 1-D row and the 2-D lottery with translated corner weights (adjointness, mass, '
+               'exact second-order expansion with the shock kernel as first-order term, zero-mass shocks, non-negativity over the integers as an ordered ring)',
+               'DiscreteChoice / LogitChoice transitions: oracle only']
 HEADER = 'From Coq Require Import ZArith List.\nFrom SSJ Require Import Model.Transitions.\nImport ListNotations.\nOpen Scope Z_scope.\n'
 
 
@@ -69,10 +70,40 @@ def correspondence(ctx):
             got, ok, model = f'raised {type(ex).__name__}: {ex}', False, None
         if not ok:
             dis.append(dict(what='het_compiled 1-D kernels' if c['kind'] == 'row' else 'CombinedTransition.forward_shock', case=c, impl=got, model=model))
+    # 2-D lottery kernels (one exogenous state): forward, expectation, shock on the flattened (ix, iy) space
+    n2 = n // 3
+    cases2, exprs2 = [], []
+    for _ in range(n2):
+        nx, ny = rng.randint(2, 4), rng.randint(2, 4)
+        N = nx * ny
+        c = dict(kind='2d', nx=nx, ny=ny, xi=[rng.randint(0, nx - 2) for _ in range(N)], yi=[rng.randint(0, ny - 2) for _ in range(N)], D=rng.ints(N, -3, 4),
+                 x=rng.ints(N, -2, 3), y=rng.ints(N, -2, 3), X=rng.ints(N, -3, 3), dx=rng.ints(N, -2, 2), dy=rng.ints(N, -2, 2))
+        cases2.append(c)
+        exprs2.append('run_2d ' + f'{nx} {ny} ' + ' '.join(C.coq_list(c[k]) for k in ('xi', 'yi', 'D', 'x', 'y', 'X', 'dx', 'dy')))
+    hdr2 = 'From Coq Require Import ZArith List.\nFrom SSJ Require Import Model.Scatter.\nImport ListNotations.\nOpen Scope Z_scope.\n'
+    vals2, logs2 = C.eval_in_coq('C08', hdr2, exprs2, chunk=100, tag='two')
+    for c, vm in zip(cases2, vals2):
+        distinct.add(C.canon(c))
+        stats['2d'] = stats.get('2d', 0) + 1
+        try:
+            sh = (1, c['nx'], c['ny'])
+            f = lambda a: np.array(a, dtype=float).reshape(sh)
+            g = lambda a: np.array(a, dtype=np.int64).reshape(sh)
+            got = [hc.forward_policy_2d(f(c['D']), g(c['xi']), g(c['yi']), f(c['x']), f(c['y'])).reshape(-1).tolist(),
+                   hc.expectation_policy_2d(f(c['X']), g(c['xi']), g(c['yi']), f(c['x']), f(c['y'])).reshape(-1).tolist(),
+                   hc.forward_policy_shock_2d(f(c['D']), g(c['xi']), g(c['yi']), f(c['x']), f(c['y']), f(c['dx']), f(c['dy'])).reshape(-1).tolist()]
+            model = None if vm is None else [[float(v) for v in r] for r in vm[:3]]
+            ok = got == model
+        except Exception as ex:
+            got, ok, model = f'raised {type(ex).__name__}: {ex}', False, None
+        if not ok:
+            dis.append(dict(what='het_compiled 2-D kernels', case=c, impl=got, model=model))
+    cases = cases + cases2
+    logs = logs + logs2
     for l in logs:
         dis.append(dict(what='coq evaluation failed', log=l))
     return dict(evaluations=len(cases), distinct_nontrivial=len(distinct),
-                rule='integer rows (n 2..7, arbitrary integer weights incl. outside [0,1], non-monotone index arrays) through the three 1-D kernels; '
+                rule='integer 2-D lotteries (2..4 x 2..4 grids, arbitrary integer weights and index arrays) through forward_policy_2d / expectation_policy_2d / forward_policy_shock_2d vs the scatter model on the flattened space; integer rows (n 2..7, arbitrary integer weights incl. outside [0,1], non-monotone index arrays) through the three 1-D kernels; '
                      '1-4 Markov stages with random None/shock patterns through CombinedTransition.forward_shock vs the abstract product-rule model',
                 samples=[cases[0], cases[1]], disagreements=dis, stats=stats)
 
